@@ -261,6 +261,49 @@ def doRoundtrip (world : String) : String :=
     | .error e, _ => bad s!"world:{e}"
     | _, .error e => bad s!"tokens:{e}"
 
+/-- `c18`: the recorded artifacts are read with the Lean format model -/
+def doC18 (args : List String) (impl : String) : String :=
+  let verdict : Option String :=
+    match args with
+    | "key" :: didHex :: didBytes :: signer :: verifier :: sig :: [] =>
+      match Bytes.ofHex didHex, Bytes.ofHex didBytes, Bytes.ofHex signer, Bytes.ofHex verifier, Bytes.ofHex sig with
+      | some ds, some db, some sg, some vf, some sb =>
+        match DidM.parse ds with
+        | none => some "recorded DID string does not parse in the model"
+        | some d =>
+          if DidM.bytes d != db then some "DID bytes differ from the model's"
+          else if DidM.toString d != ds then some "DID string does not print back in the model"
+          else if d.key && DidM.sigCode [] == 0 && (DidM.sigCode sb != DidM.edDSA && DidM.sigCode sb != DidM.rs256) then some "signature algorithm code"
+          else if DidM.sigRaw sb |>.length |> (· != DidM.sigSize sb) then some "signature framing"
+          else if DidM.sigCode sb == DidM.edDSA then
+            (match DidM.edSignerDecode sg, DidM.edVerifierDecode vf with
+             | some (_, pub), some pub' => if pub == pub' && (db == vf || !d.key) then none else some "Ed25519 key layout"
+             | _, _ => some "Ed25519 key layout does not decode in the model")
+          else none
+      | _, _, _, _, _ => some "hex"
+    | "did" :: didHex :: didBytes :: [] =>
+      match Bytes.ofHex didHex, Bytes.ofHex didBytes with
+      | some ds, some db =>
+        match DidM.parse ds with
+        | none => some "recorded DID string does not parse in the model"
+        | some d => if DidM.bytes d != db then some "DID bytes differ from the model's"
+                    else if DidM.toString d != ds then some "DID string does not print back in the model" else none
+      | _, _ => some "hex"
+    | kind :: archive :: [] =>
+      if kind == "token" || kind == "world" then
+        match Bytes.ofHex archive with
+        | some a =>
+          match Car.decodeCar CarDriver.H a with
+          | .ok roots bs e => if e then some "recorded archive ends in an error in the model" else if roots.length != 1 then some "archive roots" else if bs.isEmpty then some "archive without blocks" else none
+          | .headerError => some "recorded archive header is refused by the model"
+          | .foreign _ _ => some "recorded archive header is not in canonical form"
+        | none => some "hex"
+      else none
+    | _ => none
+  match verdict with
+  | none => s!"{impl}\t-"
+  | some why => s!"model-format-mismatch:{why}\t-"
+
 def handle (line : String) : String :=
   match line.splitOn "\t" with
   | ["access", mode, world, spine, checker, _, impl] => doAccess mode world spine checker impl
@@ -279,6 +322,9 @@ def handle (line : String) : String :=
   | ["handle", ct, acc, body, _] => doHandle ct acc body
   | ["channel", st, _, _] => doChannel st
   | ["roundtrip", world, _, _, _] => doRoundtrip world
+  | "c18" :: _ :: rest => (match rest.reverse with
+      | impl :: revArgs => doC18 revArgs.reverse impl
+      | [] => bad "c18")
   | ["ucan", spec, _] => doUcan spec
   | ["rcpt", spec, _] =>
     -- C10_verifies / C10_same / C10_tamper: an issued receipt verifies and reads back unchanged after
